@@ -262,6 +262,8 @@ class AxolotlManager(object):
         except UntrustedIdentityException as ex:
             if autotrust:
                 self.trust_identity(ex.getName(), ex.getIdentityKey())
+                # now that the new identity is trusted, actually build the session for it
+                session_builder.processPreKeyBundle(prekeybundle)
             else:
                 raise exceptions.UntrustedIdentityException(ex.getName(), ex.getIdentityKey())
 
